@@ -32,6 +32,36 @@ type Pipe struct {
 	B       int     `json:"b,omitempty"` // size of the second list (argument b)
 	K       int     `json:"k,omitempty"` // decisive value (argument k)
 	Consume int     `json:"consume,omitempty"`
+	// Shared > 0: the stages before Split are bound to a name (let s=...) and the pipeline
+	// continues with an expression that uses s more than once: both operands of a merge,
+	// a closure run by parallel workers, multiUse consumers, +, cross
+	Shared int `json:"shared,omitempty"`
+	Split  int `json:"split,omitempty"`
+	// Reuse != "": the list is bound to a name, consumed completely once by this consumer, and
+	// only then handed to the terminal (a lazy list value used twice)
+	Reuse string `json:"reuse,omitempty"`
+}
+
+const sharedCostID = 13
+
+// sharedBody returns extra let-definitions and the expression that replaces the shared prefix.
+func (p *Pipe) sharedBody() (lets, expr string) {
+	switch p.Shared {
+	case 1:
+		return "", "s.accept(x->x%2=0).merge(s.accept(x->x%2!=0), (p,q)->p<q)"
+	case 2:
+		return "", "numbers(40).map(i->s.mapReduce(cost(" + strconv.Itoa(sharedCostID) + ",i),(u,x)->(u*31+x)%1000003))"
+	case 3:
+		return "", "s.map(x->x+1).merge(s, (p,q)->p<q)"
+	case 4:
+		// the consumers read their own list first: a consumer that lets the distributor wait for
+		// more than 5 s (simulated) is timed out by design ("iterator timed out")
+		return "let r=numbers(3).multiUse({p:l->l.sum()+s.reduce((u,v)->(u+v)%1000003), q:l->l.size()+s.map(x->x+1).reduce((u,v)->(u*3+v)%1000003)}); ", "[r.p,r.q,r.p+r.q]"
+	case 5:
+		return "", "(s.map(x->x*2)+s.accept(x->x%3=0))"
+	default:
+		return "", "s.top(6).cross(s, (p,q)->p*7+q)"
+	}
 }
 
 var lazyOps = []string{"map", "accept", "combine", "combine3", "combineN", "iir", "iirCombine", "number", "compact", "cross", "merge", "top", "skip", "fsm", "plus"}
@@ -262,14 +292,33 @@ func (p *Pipe) render() (string, error) {
 	if len(p.Stages) > 10 {
 		return "", fmt.Errorf("too many stages")
 	}
+	lets := ""
+	shared := p.Shared > 0
 	for i, st := range p.Stages {
+		if shared && i == p.Split {
+			l, e := p.sharedBody()
+			lets, cur, shared = "let s="+cur+"; "+l, e, false
+		}
 		var ok bool
 		cur, ok = renderStage(cur, st, i, p)
 		if !ok {
 			return "", fmt.Errorf("unknown stage %q", st.Op)
 		}
 	}
+	if shared {
+		l, e := p.sharedBody()
+		lets, cur = "let s="+cur+"; "+l, e
+	}
 	ts := len(p.Stages)
+	if p.Reuse != "" {
+		full := map[string]string{"reduce": "reduce((p,q)->(p+q)%1000003)", "sum": "sum()", "minMax": "minMax(x->x)", "presentfalse": "present(x->x<0)",
+			"size": "size()", "last": "last()", "multiUse": "multiUse({u:t->t.sum(), v:t->t.size()})", "string": "string()", "mapReduce": "mapReduce(0,(s,x)->(s+x)%1000003)"}[p.Reuse]
+		if full == "" {
+			return "", fmt.Errorf("unknown reuse consumer %q", p.Reuse)
+		}
+		lets += "let l=" + cur + "; let w=l." + full + "; "
+		cur = "l"
+	}
 	if p.Term.Op == "multiUse" {
 		if len(p.MU) == 0 || len(p.MU) > 4 {
 			return "", fmt.Errorf("multiUse needs 1..4 consumers")
@@ -312,10 +361,13 @@ func (p *Pipe) render() (string, error) {
 			return "", fmt.Errorf("unknown terminal %q", p.Term.Op)
 		}
 	}
+	if p.Reuse != "" {
+		cur = "if [w].size()=0 then 0 else (" + cur + ")"
+	}
 	if p.Try {
 		cur = "try " + cur + " catch -77"
 	}
-	return cur, nil
+	return lets + cur, nil
 }
 
 func (p *Pipe) argNames() []string {
